@@ -5,31 +5,31 @@ go 1.25.7
 toolchain go1.25.8
 
 require (
-	github.com/blinklabs-io/gouroboros v0.0.0
 	filippo.io/edwards25519 v1.2.0
+	github.com/bits-and-blooms/bitset v1.24.4
+	github.com/blinklabs-io/gouroboros v0.188.0
 	github.com/blinklabs-io/ouroboros-mock v0.16.0
 	github.com/blinklabs-io/plutigo v0.3.0
-	github.com/btcsuite/btcd/btcutil v1.2.0
-	github.com/fxamacker/cbor/v2 v2.9.2
-	github.com/jinzhu/copier v0.4.0
-	github.com/stretchr/testify v1.12.0
-	github.com/utxorpc/go-codegen v0.19.2
-	go.uber.org/goleak v1.3.0
-	golang.org/x/crypto v0.55.0
-	google.golang.org/protobuf v1.36.12
-	github.com/bits-and-blooms/bitset v1.24.4
 	github.com/btcsuite/btcd/btcec/v2 v2.5.0
+	github.com/btcsuite/btcd/btcutil v1.2.0
 	github.com/btcsuite/btcd/chaincfg/chainhash v1.2.0
 	github.com/btcsuite/btcd/chainhash/v2 v2.0.0
 	github.com/consensys/gnark-crypto v0.20.1
 	github.com/decred/dcrd/crypto/blake256 v1.1.0
 	github.com/decred/dcrd/dcrec/secp256k1/v4 v4.4.0
+	github.com/fxamacker/cbor/v2 v2.9.2
+	github.com/jinzhu/copier v0.4.0
 	github.com/klauspost/cpuid/v2 v2.2.3
 	github.com/kr/text v0.2.0
 	github.com/minio/sha256-simd v1.0.1
 	github.com/rogpeppe/go-internal v1.14.1
+	github.com/stretchr/testify v1.12.0
+	github.com/utxorpc/go-codegen v0.19.2
 	github.com/x448/float16 v0.8.4
+	go.uber.org/goleak v1.3.0
+	golang.org/x/crypto v0.55.0
 	golang.org/x/sys v0.47.0
+	google.golang.org/protobuf v1.36.12
 	gopkg.in/yaml.v3 v3.0.1
 )
 
